@@ -20,14 +20,14 @@ class EngineProp(Prop):
         n = self.n_quick if tier == 'quick' else self.n_thorough
         for k in range(n):
             out.append({'role': rng.choice(['server', 'client']), 'seed': rng.getrandbits(40), 'len': rng.randint(*self.length),
-                        'profile': self.profiles[k % len(self.profiles)]})
+                        'profile': self.profiles[k % len(self.profiles)], 'fragment': rng.choice([None, None, 64])})
         return out
 
     def run_impl(self, case):
         return detloop.run(self._scenario, case)
 
     async def _scenario(self, loop, case):
-        H = engine.EngineRun(loop, case['role'], lease_publisher=case.get('lease_publisher', False))
+        H = engine.EngineRun(loop, case['role'], lease_publisher=case.get('lease_publisher', False), fragment=case.get('fragment'))
         await H.start()
         script = []
         if 'script' in case:
@@ -36,6 +36,7 @@ class EngineProp(Prop):
         else:
             rng = random.Random(case['seed'])
             sh = enginegen.Shadow(case['role'])
+            sh.big = bool(case.get('fragment'))
             for pos in range(case['len']):
                 group = enginegen.choose_group(rng, H, sh, case['profile'], pos)
                 if not group:
